@@ -4,4 +4,5 @@ PROPERTY Pure
 CONSTANTS
   NProc = 3
   AllowWrite = FALSE
+  AllowAlias = FALSE
   MaxCalls = 2
